@@ -23,6 +23,9 @@ enum Case {
     /// per-document enforcement of the alias/anchor ratio: the stream prefix + doc + suffix
     /// reports a ratio breach iff `doc` read alone does (all other documents are within it)
     PerDocRatio { prefix: Vec<u8>, doc: u8, suffix: bool, reject: bool },
+    /// per-document enforcement: the same document twice in one stream gets the same verdict
+    /// twice, whatever the limit (`delta` is added to the document's own usage of `counter`)
+    PerDocTwice { doc: u8, counter: Counter, delta: i8 },
 }
 
 fn budget_with(c: Counter, v: usize) -> BudgetD {
@@ -395,6 +398,54 @@ fn check_perdoc_single(prefix: &[u8], doc: u8, counter: Counter) -> Outcome {
     Outcome::Pass
 }
 
+fn check_perdoc_twice(doc: u8, counter: Counter, delta: i8) -> Outcome {
+    let d = DOCS[doc as usize % DOCS.len()];
+    let an = match usage::analyze(d) {
+        Ok(a) => a,
+        Err(_) => return Outcome::Discard("selfcheck-analyze"),
+    };
+    if counter == Counter::Documents {
+        return Outcome::Discard("not-per-document");
+    }
+    let lim = (an.per_doc[0].get(counter) as i64 + delta as i64).max(0) as usize;
+    let b = budget_with(counter, lim);
+    let text = format!("{d}{d}");
+    let items = match all_verdicts(&text, &b) {
+        Ok(v) => v,
+        Err(e) => return Outcome::Fail(format!("stream: {e}")),
+    };
+    // the verdict for a document: Ok, or rejected (a budget error as its item, or right behind it)
+    let verdicts: Vec<bool> = {
+        let mut v = vec![];
+        let mut i = 0;
+        while i < items.len() {
+            if items[i].starts_with("Ok") {
+                // an error item that follows belongs to this document when it comes before the next Ok
+                if items.get(i + 1).is_some_and(|n| n.starts_with("Budget(")) {
+                    v.push(false);
+                    i += 2;
+                } else {
+                    v.push(true);
+                    i += 1;
+                }
+            } else {
+                v.push(false);
+                i += 1;
+            }
+        }
+        v
+    };
+    // (a breach met at a document's end marker ends the stream: the second document then has no
+    // verdict to compare)
+    if verdicts.len() > 2 || (verdicts.len() == 2 && verdicts[0] != verdicts[1]) {
+        return Outcome::Fail(format!(
+            "per-document enforcement: the same document twice in one stream gets different verdicts: items {items:?} ({counter:?} limited to {lim}, its own usage {:+}; stream {text:?})",
+            delta
+        ));
+    }
+    Outcome::Pass
+}
+
 fn check_perdoc_ratio(prefix: &[u8], doc: u8, suffix: bool, reject: bool) -> Outcome {
     // the two final documents with aliases
     let d = [DOCS[0], DOCS[2]][doc as usize % 2];
@@ -455,6 +506,7 @@ fn nontrivial(c: &Case) -> bool {
         Case::Stream { docs, .. } => docs.iter().any(|d| d.has_alias() && d.depth() >= 2),
         Case::PerDoc { prefix, .. } | Case::PerDocSingle { prefix, .. } => !prefix.is_empty(),
         Case::PerDocRatio { prefix, suffix, .. } => !prefix.is_empty() || *suffix,
+        Case::PerDocTwice { .. } => true,
     }
 }
 
@@ -521,6 +573,7 @@ impl Property for C07 {
             Case::PerDoc { prefix, doc, tighten } => check_perdoc(prefix, *doc, *tighten),
             Case::PerDocSingle { prefix, doc, counter } => check_perdoc_single(prefix, *doc, *counter),
             Case::PerDocRatio { prefix, doc, suffix, reject } => check_perdoc_ratio(prefix, *doc, *suffix, *reject),
+            Case::PerDocTwice { doc, counter, delta } => check_perdoc_twice(*doc, *counter, *delta),
         }
     }
     fn signatures(c: &Case) -> Vec<&'static str> {
@@ -586,6 +639,7 @@ impl Property for C07 {
                     out.push(Case::PerDocSingle { prefix: p, doc: *doc, counter: *counter });
                 }
             }
+            Case::PerDocTwice { .. } => {}
             Case::PerDocRatio { prefix, doc, suffix, reject } => {
                 for i in 0..prefix.len() {
                     let mut p = prefix.clone();
@@ -694,7 +748,19 @@ impl Property for C07 {
                 }
             }
         }
-        ctx.subspace(&format!("prefix sequences of length <= {maxlen} over 7 kinds x 4 final documents x (exact budget + 7 lowered limits + 7 single limits) + 2 final documents with aliases x ratio boundary x with / without a following document"), total, true);
+        for doc in 0..DOCS.len() as u8 {
+            for c in COUNTERS.iter().filter(|c| **c != Counter::Documents) {
+                for delta in -3i8..=2 {
+                    idx += 1;
+                    total += 1;
+                    if ctx.mine(idx) {
+                        let c = Case::PerDocTwice { doc, counter: *c, delta };
+                        ctx.case("per-document-twice", &c, true);
+                    }
+                }
+            }
+        }
+        ctx.subspace(&format!("prefix sequences of length <= {maxlen} over 7 kinds x 4 final documents x (exact budget + 7 lowered limits + 7 single limits) + 2 final documents with aliases x ratio boundary x with / without a following document + every final document twice x 7 single limits at usage-3..usage+2"), total, true);
     }
 }
 
